@@ -169,7 +169,7 @@ ONE_S = _dt.timedelta(seconds=1)
 
 # ------------------------------------------------------------------ time windows: the second thread is the scheduler's timer thread
 def _winst(tier):
-    return [{"op": o, "seq": q, "P": 1 if tier == "quick" else 2} for o in ("window_with_time", "window_with_time_or_count", "buffer_with_time")
+    return [{"op": o, "seq": q, "P": 1, "gran": "coarse" if tier == "quick" else "fine"} for o in ("window_with_time", "window_with_time_or_count", "buffer_with_time")
             for q in ("n_c", "n_n_c", "n_e")]
 
 
@@ -178,7 +178,7 @@ def h_window_timer(a, inst):
     """one source thread and the gated timer thread(s) of a TimeoutScheduler on the controlled clock: the window operators must
     not call the downstream observer (outer, or a window's own observer) from two threads at once"""
     from reactivex.scheduler import TimeoutScheduler
-    gate.GRANULARITY = "coarse"
+    gate.GRANULARITY = inst.get("gran", "coarse")
 
     def run(preempts):
         with gate.install(*LOCKMODS):
@@ -204,7 +204,7 @@ def h_window_timer(a, inst):
                     traceback.print_exception(type(e), e, e.__traceback__, file=__import__("sys").stderr)
             return ok, g.steps
 
-    key = ("w", inst["op"], inst["seq"])
+    key = ("w", inst["op"], inst["seq"], inst.get("gran"))
     if key not in _BASE:
         _BASE[key] = run([])
     ok0, L = _BASE[key]
